@@ -96,6 +96,13 @@ impl AckLog {
         }
     }
 
+    /// `wait`, with one more full period of grace before giving up: the clock is
+    /// wall time, and a process that was stopped (or a machine that stalled) for
+    /// longer than the timeout must not turn into a verdict.
+    pub fn wait_patiently(&self, id: u64, timeout: Duration) -> Option<AckEvent> {
+        self.wait(id, timeout).or_else(|| self.wait(id, timeout))
+    }
+
     pub fn get(&self, id: u64) -> Option<AckEvent> {
         self.events.lock().unwrap().iter().find(|e| e.id() == id).cloned()
     }
